@@ -1588,10 +1588,16 @@ class Interp:
         qt = strip_type(type_of(n))
         if qt.endswith("::key_type") or qt.endswith("::value_type") or qt.endswith("::mapped_type"):
             qt = strip_type(desugared(n))
-        args = [self.expr(a) for a in kids(n)]
         h = self.k.ctor_handler(qt, n)
         if h is not None:
+            args = []
+            for a in kids(n):
+                try:
+                    args.append(self.expr(a))
+                except Gap:
+                    args.append(DEFAULT_ARG)
             return h(self, args, n)
+        args = [self.expr(a) for a in kids(n)]
         if len(args) == 1 and (n.get("elidable") or self.is_copy_move(n) or qt.endswith("iterator")):
             return ctx.rv(args[0])
         if is_time_type(qt):
@@ -1627,12 +1633,19 @@ class Interp:
             if isinstance(v, Opt):
                 return v
             return Opt(z3.BoolVal(True), v)
-        if "format_string<" in qt:
+        if "format_string<" in qt or qt.startswith("fmt::") or "join_view<" in qt:
             return ctx.fresh("fmt")  # fmt format string: message text only
         if qt.startswith("std::basic_string_view") or qt in ("std::string_view",):
             if args:
                 return self.k.to_string(self, ctx.rv(args[0]))
             return self.k.string_literal(self, "")
+        if qt.startswith("std::span<") and len(args) == 1:
+            return ctx.rv(args[0])  # a view of the container it is built from
+        if len(args) == 1:
+            a0t = strip_type(type_of(kids(n)[0]))
+            last = lambda t: re.sub(r"<.*$", "", t).split("::")[-1]
+            if (a0t == qt or last(a0t) == last(qt)) and not isinstance(ctx.rv(args[0]), z3.ExprRef):
+                return ctx.rv(args[0])  # copy / move of a model object of the same type
         raise Gap("constructor of %s with %d args (line %s)" % (qt, len(args), extract.line_of(n)))
 
     def is_copy_move(self, n):
@@ -1655,10 +1668,17 @@ class Interp:
         qt = strip_type(type_of(n))
         if qt.endswith("::key_type") or qt.endswith("::value_type") or qt.endswith("::mapped_type"):
             qt = strip_type(desugared(n))
-        args = [ctx.rv(self.expr(a)) for a in kids(n)]
         h = self.k.ctor_handler(qt, n)
         if h is not None:
+            # the contract models this type: members it does not care about may be anything
+            args = []
+            for a in kids(n):
+                try:
+                    args.append(ctx.rv(self.expr(a)))
+                except Gap:
+                    args.append(DEFAULT_ARG)
             return h(self, args, n)
+        args = [ctx.rv(self.expr(a)) for a in kids(n)]
         if (qt.startswith("std::pair<") or qt.startswith("pair<")) and len(args) == 2:
             return Pair(args[0], args[1])
         if re.search(r"\[\d*\]$", qt):
